@@ -9,7 +9,7 @@ TECHNIQUE = ("CrossHair/z3 symbolic execution of the real AutoSerialize.save()/l
              "assertion (absent / unreadable / complete earlier object, write-once untouched, no other path "
              "altered); counterexamples replayed on the real file system with the fault injected by mock")
 FILE = "harness/c08_failed_save.py"
-STORES = ["zip", "dir", "auto(.zip)", "auto(dir)"]
+STORES = ["zip", "dir", "auto(.zip)", "auto(dir)", "zip(path without .zip)"]
 
 
 def run(check, tier):
@@ -17,14 +17,14 @@ def run(check, tier):
                         "_recursive_save", "_serialize_value", "_serialize_container", "_write_ndarray", "_write_bytes",
                         "serialize.load", "_recursive_load")
     check.bounds.update(fault_index="symbolic k in 0..90 (0 = no fault; a graph performs <= ~60 write operations)",
-                        stores="zip, dir, auto by extension", modes="'w' and 'o'",
+                        stores="zip, dir, auto by extension, zip with a suffix-less path (target <path>.zip, unrelated object at <path>)", modes="'w' and 'o'",
                         pre_state="no target / complete object of the same kind / complete object of the other kind at the target path",
                         graphs="3 object shapes (flat; nested object + containers; tensor + empty array + set), "
                                "optional unserialisable attribute at any of 7 positions; symbolic int payload")
     check.stubs.append("os/shutil/tempfile/zarr/LocalStore/ZipFile of quantem.core.io.serialize -> vf/stubs/memfs.py with fault counter")
     check.assumptions += [
         "fault positions are the serializer's value/array/byte/group writes, the zip assembly and the final rename "
-        "(as the property quantifies); removals and clean-up calls are not made to fail",
+        "(as the property quantifies); removals and clean-up calls are not made to fail; the failure is an OSError or a KeyboardInterrupt",
         "single process; a write either happens completely or raises (no torn writes, no crash without exception)",
         "the store model numbers writes slightly differently from real zarr; the replay scans the real save's write operations for the reproducing index",
     ]
@@ -37,7 +37,7 @@ def run(check, tier):
     def key(a):
         # k, store, overwrite, pre, shape, bad, tag
         return f"{STORES[a[1]]}:mode={'o' if a[2] else 'w'}:pre={a[3]}:{'unserialisable' if a[5] else 'fault'}"
-    for store in range(4):
+    for store in range(5):
         for overwrite in (False, True):
             for pre in range(3):
                 shapes = [rnd.randrange(3)] if quick else [0, 1, 2]
@@ -51,4 +51,9 @@ def run(check, tier):
             jobs.append(dict(fn="failed_save", fixed=dict(store=store, overwrite=bool(bad % 2), pre=bad % 3, shape=bad % 3,
                                                           bad=bad, k_in=[0] if quick else list(range(0, 91))),
                              timeout=t, key_fn=key))
+    # the failure is a KeyboardInterrupt (not an Exception) at any write operation
+    for store in (0, 1, 4):
+        for overwrite in (False, True):
+            jobs.append(dict(fn="failed_save", fixed=dict(store=store, overwrite=overwrite, pre=rnd.randrange(3), shape=rnd.randrange(3), bad=0,
+                                                          interrupt=1), timeout=t, key_fn=lambda a: key(a) + ":interrupt"))
     run_jobs(check, FILE, jobs)
